@@ -549,12 +549,17 @@ DEFAULTS = [["\"text\""], ["7"], ["1.5"], ["true"], ["false"], ["\"two", "words\
 LIST_DEFAULTS = [["[\"a\",", "\"b\"]"], ["[1,", "2,", "3]"], ["[\"only\"]"]]
 
 
+# descriptions are text, not format strings: braces of every kind (help texts, which *are* format strings with the
+# documented placeholders, keep to VOCAB)
+DESC_VOCAB = VOCAB + ["{name}:", "{version}", "{0}", "{}", "{", "}", "{...}", "e.g.", "\"{name}-{0}\""]
+
+
 def _desc(rng):
     r = rng.random()
     if r < 0.15:
         return False, []
     n = rng.choice([1, 2, 3, 5, 8, 13, 25, 40]) if r < 0.9 else 1
-    return True, [rng.choice(VOCAB) for _ in range(n)]
+    return True, [rng.choice(DESC_VOCAB) for _ in range(n)]
 
 
 def _args(rng, taken, tail, n, tags):
